@@ -36,3 +36,21 @@ func VerifState(k, iv [4]uint32, n int) (lfsr [16]uint32, fsm [3]uint32) {
 	}
 	return s.lfsr, s.fsm
 }
+
+// VerifClockFSM clocks the FSM of an arbitrary state once and returns F and the new registers.
+func VerifClockFSM(lfsr [16]uint32, fsm [3]uint32) (uint32, [3]uint32) {
+	s := &snow3g{lfsr: lfsr, fsm: fsm}
+	f := s.clockFsm(s.lfsr[15], s.lfsr[5])
+	return f, s.fsm
+}
+
+// VerifLfsrStep clocks the LFSR of an arbitrary state once (initialisation mode consumes F).
+func VerifLfsrStep(lfsr [16]uint32, init bool, f uint32) [16]uint32 {
+	s := &snow3g{lfsr: lfsr}
+	if init {
+		s.lfsrInitializationMode(f)
+	} else {
+		s.lfsrKeystreamMode()
+	}
+	return s.lfsr
+}
